@@ -5,6 +5,7 @@ import (
 	"errors"
 	"io"
 	"strings"
+	"time"
 )
 
 var verrFault = errors.New("verif: injected I/O fault")
@@ -179,5 +180,50 @@ func VH_C18_FileHelpers() {
 	s.Items = append(s.Items, &Item{EndAt: 1, Lines: []Line{{Items: []LineItem{{Text: "a"}}}}})
 	err = s.Write("/nonexistent/dir/x.srt")
 	vassert(err != nil, "C18 Write reports an uncreatable file")
+	vreach("end")
+}
+
+// C18 H7: the readers and the writer that delegate to another layer (TTML: encoding/xml; teletext: the transport-stream
+// demultiplexer) report that layer's failure. Engine: the layer's provider fails; native run: the real layer on a
+// stream that fails at offset k.
+func VH_C18_DelegatedFaults() {
+	vmode("int")
+	switch choose(3) {
+	case 0: // TTML read
+		doc := []byte("<tt xmlns=\"http://www.w3.org/ns/ttml\" xml:lang=\"en\"><head></head><body><div><p begin=\"00:00:01.000\" end=\"00:00:02.000\">Hello</p><p begin=\"00:00:03.000\" end=\"00:00:04.000\">World</p></div></body></tt>")
+		k := int(nondetInt64(0, int64(len(doc)-1)))
+		vxmlFault = true
+		s, err := ReadFromTTML(&vfaultReader{data: doc, k: k})
+		vxmlFault = false
+		vassert(err != nil, "C18 ttml read fault is reported")
+		vassert(s == nil || len(s.Items) == 0 || err != nil, "C18 ttml read fault: no shorter list without an error")
+	case 1: // TTML write
+		s := NewSubtitles()
+		s.Items = append(s.Items, &Item{StartAt: time.Second, EndAt: 2 * time.Second, Lines: []Line{{Items: []LineItem{{Text: "Hello"}}}}})
+		w := &vfaultWriter{j: 0}
+		vxmlFault = true
+		err := s.WriteToTTML(w)
+		vxmlFault = false
+		vassert(err != nil, "C18 ttml write fault is reported")
+	default: // teletext read: the demultiplexer fails after k items of the sequence
+		vtsData, vtsPos = nil, 0
+		p := func(s int64) int64 { return s * 90000 }
+		vtsData = append(vtsData, vpmtData(100))
+		vtsData = append(vtsData, vpesData(100, p(100), vpes(vheader(0, 8, 8, true, true, 0), vrow(0, 20, "Hello"))))
+		vtsData = append(vtsData, vpesData(100, p(110), vpes(vheader(0, 8, 8, true, true, 0), vrow(0, 20, "World"))))
+		vtsData = append(vtsData, vpesData(100, p(120), vpes(vheader(0, 8, 8, true, true, 0))))
+		k := choose(len(vtsData) + 1)
+		pid := []int{0, 100}[choose(2)]
+		data := vtsBytes()
+		off := len(data) // native run: the stream fails at a packet boundary proportional to k
+		if vnative() {
+			off = len(data) / 188 * k / (len(vtsData) + 1) * 188
+		}
+		vtsFault, vtsFaultPos = true, k
+		s, err := ReadFromTeletext(&vfaultReader{data: data, k: off}, TeletextOptions{PID: pid, Page: 888})
+		vtsFault = false
+		vassert(err != nil, "C18 teletext read fault is reported")
+		vassert(s == nil || err != nil, "C18 teletext read fault: no shorter list without an error")
+	}
 	vreach("end")
 }
